@@ -21,6 +21,7 @@ from fractions import Fraction
 import numpy as np
 
 SCALARS = [0.5, 2.0, 0.25, 1j, -1.0, 3 + 4j, 0.0, 4.0]
+MIXED_SCALARS = [0, 1, 2, 6, 7]      # indices of the real non-negative values
 # name -> (n_in, n_out, function on bit tuples) ; array[in..., out...] = 1 iff out == f(in)
 CGATES = {
     "NOT": (1, 1, lambda b: (1 - b[0],)),
@@ -500,8 +501,10 @@ def gen_spec(rng, max_width=4, max_depth=8, exotic=0.06, max_regs=7):
         elif k == "unbits":
             box, off = ("bits", (rng.choice([0, 0, 1]),), 1), rng.choice(b1)
         else:
-            box, off = ("scalar", rng.randrange(len(SCALARS)), rng.choice([0, 0, 1])), \
-                rng.randint(0, len(cur))
+            mixed = rng.choice([0, 0, 1])
+            # a mixed scalar is a probability weight: real and non-negative values only
+            k_s = rng.choice(MIXED_SCALARS) if mixed else rng.randrange(len(SCALARS))
+            box, off = ("scalar", k_s, mixed), rng.randint(0, len(cur))
         d, c = box_io(box)
         if len(cur) - len(d) + len(c) > max_width:
             continue
